@@ -72,7 +72,7 @@ pub fn run(ctx: &Ctx) -> Result<Evidence, String> {
     let n_curated = asts.len();
     let mut qcfg = gen::QueryCfg::default();
     qcfg.names = ["a", "b", "c", "k", "x y", "xy", "_1", "\u{e9}"].iter().map(|s| s.to_string()).collect();
-    for _ in 0..ctx.tier.pick(1500, 30000) {
+    for _ in 0..ctx.tier.pick(1500, 250000) {
         asts.push(gen::random_query(&mut rng, &qcfg));
     }
     let ndoc = docs.len();
